@@ -36,6 +36,7 @@ type item struct {
 	HasICC bool
 	Well   bool // well-formed with known layout (C18)
 	Light  bool // hostile variant: exercised at full length and a few cuts only
+	TailFF bool // the virtual tail is a run of 0xFF fill bytes
 }
 
 func readCases(path string) ([]concrete.Case, error) {
@@ -524,7 +525,9 @@ func loadOSFile(dir, loader string, data []byte, tail int) (pulled int, o obs.Ob
 // signature and one chunk declaring 40 MiB, the bytes supplied by the source's virtual tail)
 func hugeJunk() []item {
 	hdr := append(append([]byte{}, gen.PNGSig...), 0x02, 0x80, 0x00, 0x00, 't', 'E', 'X', 't') // length 0x02800000 = 40 MiB
-	return []item{{Name: "junk:pngsig+40MiB-chunk", Fmt: "junk", Data: hdr, Tail: 40<<20 + 16}}
+	return []item{{Name: "junk:pngsig+40MiB-chunk", Fmt: "junk", Data: hdr, Tail: 40<<20 + 16},
+		// a start-of-image followed by 40 MiB of fill bytes (any number may precede a marker)
+		{Name: "junk:soi+40MiB-of-fill-bytes", Fmt: "junk", Data: []byte{0xFF, 0xD8}, Tail: 40 << 20, TailFF: true}}
 }
 
 // iccOutcome runs the ICC profile reader behind an arbitrary buffered reader.
@@ -724,7 +727,7 @@ func loadsCmd(args []string) error {
 			for _, loader := range []string{"png", "auto"} {
 				for _, fault := range []string{"eof", "ioerr"} {
 					src := obs.NewSource(it.Data, -1, failOf(fault), obs.Full)
-					src.Tail, src.Cut = it.Tail, len(it.Data)+it.Tail
+					src.Tail, src.Cut, src.TailFF = it.Tail, len(it.Data)+it.Tail, it.TailFF
 					o := obs.Run(loader, src, true, false)
 					sink.put(map[string]interface{}{
 						"item": it.Name, "loader": loader, "n": src.Cut, "cut": src.Cut, "fault": fault,
@@ -1052,7 +1055,7 @@ func loadsCmd(args []string) error {
 			ev := map[string]interface{}{"item": it.Name, "n": len(it.Data) + it.Tail, "cut": len(it.Data) + it.Tail, "sched": "full", "shape": "plain"}
 			for _, loader := range obs.LoaderNames {
 				src := obs.NewSource(it.Data, -1, nil, obs.Full)
-				src.Tail, src.Cut = it.Tail, len(it.Data)+it.Tail
+				src.Tail, src.Cut, src.TailFF = it.Tail, len(it.Data)+it.Tail, it.TailFF
 				o := obs.Run(loader, src, loader == "auto", false)
 				ev[loader] = o.Outcome()
 				if loader == "auto" {
